@@ -363,7 +363,11 @@ def run(tier, seed):
         if at:
             # a beat at which nothing starts: nothing changes
             b4 = snapshot(bar)
-            bar.place_notes_at(real_content(c), bar.bar[idx][0] + 0.0123)
+            try:
+                bar.place_notes_at(real_content(c), bar.bar[idx][0] + 0.0123)
+            except Exception as e:  # noqa
+                R.fail(group, clause, "notes placed at a beat where no entry starts raised %s: %s (another entry was "
+                                      "taken for it)" % (type(e).__name__, e), hist)
             if snapshot(bar) != b4:
                 R.fail(group, clause, "notes placed at a beat where no entry starts changed the bar", hist)
 
